@@ -2,7 +2,8 @@
    representations, its preservation by every operation, the refinement to the logical
    graph, and one lemma per read view. *)
 From Coq Require Import List NArith Bool Lia Permutation ZArith ZifyBool ZifyNat ZifyN.
-From Verif Require Import CheckLib GraphStore.
+From Coq Require Import Sorted.
+From Verif Require Import CheckLib GraphStore BinSearchProofs.
 Import ListNotations.
 Open Scope N_scope.
 
@@ -465,6 +466,38 @@ Proof.
       apply in_app_or in H as [H|H]; apply in_or_app; [left | right; right]; auto.
 Qed.
 
+Lemma ins_sorted_perm x l : Permutation (ins_sorted x l) (x :: l).
+Proof.
+  induction l as [|y l IH]; cbn; auto.
+  destruct (N.eqb (a_node y) (a_node x) && N.leb (a_nbr x) (a_nbr y)); auto.
+  rewrite IH. apply perm_swap.
+Qed.
+
+Lemma buf_add_perm stub x l : Permutation (buf_add stub x l) (x :: l).
+Proof.
+  unfold buf_add. destruct stub; [|apply ins_sorted_perm].
+  symmetry. apply Permutation_cons_append.
+Qed.
+
+Lemma In_eids_buf_add stub x l e : In e (eids (buf_add stub x l)) <-> e = a_eid x \/ In e (eids l).
+Proof.
+  unfold eids. split; intros H.
+  - eapply Permutation_in in H; [|apply Permutation_map, buf_add_perm]. cbn in H. intuition.
+  - eapply Permutation_in; [symmetry; apply Permutation_map, buf_add_perm|]. cbn. intuition.
+Qed.
+
+Lemma AdjInv_perm ep nx fr sw fro buf fro' buf' :
+  Permutation fro fro' -> Permutation buf buf' ->
+  AdjInv ep nx fr sw fro buf -> AdjInv ep nx fr sw fro' buf'.
+Proof.
+  intros P1 P2 I. constructor.
+  - eapply Permutation_NoDup; [|apply (a_nd _ _ _ _ _ _ I)]. unfold eids. apply Permutation_map.
+    now apply Permutation_app.
+  - intros x Hx. apply (a_buf _ _ _ _ _ _ I). eapply Permutation_in; [symmetry; eauto | auto].
+  - intros x Hx. apply (a_fro _ _ _ _ _ _ I). eapply Permutation_in; [symmetry; eauto | auto].
+  - intros e L. eapply Permutation_in; [apply Permutation_app; eauto|]. now apply (a_all _ _ _ _ _ _ I).
+Qed.
+
 Lemma not_entry_eid ep nx fr sw fro buf e x :
   AdjInv ep nx fr sw fro buf -> In x buf ->
   not_entry (a_node (mk_ent sw (ep e) e)) e x = negb (N.eqb (a_eid x) e).
@@ -610,11 +643,13 @@ Proof.
     destruct (N.eqb_spec e id) as [->|Hne].
     + intros _ E. inversion E; subst. apply pset_add_In. auto.
     + intros L E. apply pset_add_In. right. now apply (e_tidx_c _ I).
-  - change ({| a_node := a; a_nbr := b; a_eid := id |}) with (mk_ent false (a, b) id).
+  - eapply AdjInv_perm; [apply Permutation_refl | symmetry; apply buf_add_perm |].
+    change ({| a_node := a; a_nbr := b; a_eid := id |}) with (mk_ent false (a, b) id).
     eapply AdjInv_add; [apply (e_out _ I) | ..]; eauto.
-  - change ({| a_node := b; a_nbr := a; a_eid := id |}) with (mk_ent true (a, b) id).
+  - eapply AdjInv_perm; [apply Permutation_refl | symmetry; apply buf_add_perm |].
+    change ({| a_node := b; a_nbr := a; a_eid := id |}) with (mk_ent true (a, b) id).
     eapply AdjInv_add; [apply (e_in _ I) | ..]; eauto.
-  - intros e. cbn. rewrite (e_tiers _ I). tauto.
+  - intros e. rewrite !In_eids_buf_add. cbn. rewrite (e_tiers _ I). tauto.
   - rewrite (e_fdead _ I). f_equal. f_equal. apply filter_ext_in'. intros x Hx.
     rewrite LV. destruct (N.eqb_spec (a_eid x) id) as [E|E]; auto. exfalso. eapply Hnf; eauto.
 Qed.
@@ -682,7 +717,8 @@ Proof.
   - rewrite Hb. apply AdjInv_del; auto. apply I. rewrite INB. apply (e_tiers _ I).
   - intros x. rewrite Ha at 1. rewrite Hb. rewrite (eids_filter_ne _ _ _ _ _ _ _ _ (e_out _ I)).
     rewrite (eids_filter_ne _ _ _ _ _ _ _ _ (e_in _ I)). rewrite (e_tiers _ I). tauto.
-  - rewrite (e_fdead _ I). pose proof (a_nd _ _ _ _ _ _ (e_out _ I)) as ND. rewrite eids_app in ND.
+  - change (concat (fsegs_out s)) with (fout s).
+    rewrite (e_fdead _ I). pose proof (a_nd _ _ _ _ _ _ (e_out _ I)) as ND. rewrite eids_app in ND.
     destruct inb eqn:EI.
     + f_equal. f_equal. apply filter_ext_in'. intros x Hx. rewrite LV.
       destruct (N.eqb_spec (a_eid x) e) as [E|E]; auto. exfalso.
@@ -702,7 +738,7 @@ Lemma InvE_with_props s P C U :
   InvE s -> (forall e, live_e s e = false -> P e = None /\ C e = []) ->
   InvE {| endp := endp s; etype := etype s; eprops := P; ecols := C; next_edge := next_edge s;
           free_edges := free_edges s; tidx := tidx s; interned := interned s; bout := bout s;
-          bin := bin s; fout := fout s; fin := fin s; fdead := fdead s; unsorted := U;
+          bin := bin s; fsegs_out := fsegs_out s; fsegs_in := fsegs_in s; fdead := fdead s; unsorted := U;
           tstale := tstale s |}.
 Proof.
   intros I H. constructor; cbn; try apply I.
@@ -727,19 +763,34 @@ Qed.
 Lemma filter_none {A} (p : A -> bool) l : (forall x, In x l -> p x = false) -> filter p l = [].
 Proof. induction l; cbn; intros H; auto. rewrite (H a) by auto. apply IHl. auto. Qed.
 
+Lemma concat_snoc {A} (ls : list (list A)) (l : list A) : concat (ls ++ [l]) = concat ls ++ l.
+Proof. rewrite concat_app. cbn. now rewrite app_nil_r. Qed.
+
+Lemma filter_length_perm {A} (p : A -> bool) l l' : Permutation l l' -> length (filter p l) = length (filter p l').
+Proof.
+  induction 1; cbn; auto.
+  - destruct (p x); cbn; auto.
+  - destruct (p x), (p y); cbn; auto.
+  - congruence.
+Qed.
+
 Lemma InvE_compact_do s :
   InvE s ->
   InvE {| endp := endp s; etype := etype s; eprops := eprops s; ecols := ecols s;
           next_edge := next_edge s; free_edges := free_edges s; tidx := tidx s;
           interned := interned s; bout := []; bin := [];
-          fout := fout s ++ bout s; fin := fin s ++ bin s;
+          fsegs_out := fsegs_out s ++ [sort_nbr (bout s)]; fsegs_in := fsegs_in s ++ [sort_nbr (bin s)];
           fdead := fdead s; unsorted := []; tstale := tstale s |}.
 Proof.
   intros I. constructor; cbn; try apply I.
-  - apply AdjInv_compact; [apply I|]. intros e L. now apply (e_range _ I).
-  - apply AdjInv_compact; [apply I|]. intros e L. now apply (e_range _ I).
+  - unfold fout; cbn. rewrite concat_snoc. eapply AdjInv_perm; [apply Permutation_app_head; symmetry; apply sort_nbr_perm | apply Permutation_refl |].
+    apply AdjInv_compact; [apply I|]. intros e L. now apply (e_range _ I).
+  - unfold fin; cbn. rewrite concat_snoc. eapply AdjInv_perm; [apply Permutation_app_head; symmetry; apply sort_nbr_perm | apply Permutation_refl |].
+    apply AdjInv_compact; [apply I|]. intros e L. now apply (e_range _ I).
   - tauto.
-  - unfold live_e; cbn [endp]. rewrite (e_fdead _ I). unfold live_e. f_equal. rewrite filter_app, app_length.
+  - unfold live_e; cbn [endp]. rewrite (e_fdead _ I). unfold live_e, fout; cbn. f_equal. rewrite concat_snoc.
+    rewrite (filter_length_perm _ (concat (fsegs_out s) ++ sort_nbr (bout s)) (concat (fsegs_out s) ++ bout s)) by (apply Permutation_app_head, sort_nbr_perm).
+    rewrite filter_app, app_length.
     rewrite (filter_none _ (bout s)); [cbn; lia|].
     intros x Hx. destruct (a_buf _ _ _ _ _ _ (e_out _ I) _ Hx) as [H1 _].
     unfold lv in H1. now rewrite H1.
@@ -1177,9 +1228,9 @@ Proof.
 Qed.
 
 Theorem view_edges_between a b ty :
-  Permutation (edges_between s a b ty) (lg_between (abs s) bound a b ty).
+  Permutation (edges_between_spec s a b ty) (lg_between (abs s) bound a b ty).
 Proof.
-  unfold edges_between, lg_between, lg_rel_ids, adj_out.
+  unfold edges_between_spec, match_entry, lg_between, lg_rel_ids, adj_out.
   set (sel := fun r : N * N * N * props => let '(a', b', t, _) := r in
          N.eqb a' a && N.eqb b' b && match ty with Some t' => N.eqb t t' | None => true end).
   pose proof (adj_view false _ _ a sel (e_out _ IE)) as P.
@@ -1438,4 +1489,141 @@ Proof.
   - intros HI. apply in_map_iff in HI as [x [E Hx]]. apply in_app_or in Hx as [Hx|Hx].
     + destruct (a_buf _ _ _ _ _ _ (e_out _ IE) _ Hx) as [L _]. rewrite E in L. rewrite live_e_lv in Hd. congruence.
     + destruct (a_buf _ _ _ _ _ _ (e_in _ IE) _ Hx) as [L _]. rewrite E in L. rewrite live_e_lv in Hd. congruence.
+Qed.
+
+(* ---------------------------------------------------------------- sorted slices and the search as written *)
+(* every write-buffer slice that has had no stub append since the last compaction, and every
+   slice of every frozen segment, is sorted by neighbour id *)
+Definition SortedInv (s : estate) : Prop :=
+  (forall a, ~ In a (unsorted s) -> SortedN (slice (bout s) a)) /\
+  (forall seg a, In seg (fsegs_out s) -> SortedN (slice seg a)).
+
+Lemma slice_ins_sorted x l n :
+  slice (ins_sorted x l) n = if N.eqb n (a_node x) then ins_lb x (slice l n) else slice l n.
+Proof.
+  induction l as [|y l IH]; cbn [ins_sorted].
+  - cbn. rewrite (N.eqb_sym (a_node x) n). destruct (N.eqb n (a_node x)); reflexivity.
+  - destruct (N.eqb_spec (a_node y) (a_node x)) as [E|E]; cbn [andb].
+    + destruct (N.leb (a_nbr x) (a_nbr y)) eqn:C.
+      * cbn [slice filter]. rewrite E. rewrite (N.eqb_sym (a_node x) n).
+        destruct (N.eqb n (a_node x)); [|reflexivity]. cbn [ins_lb]. now rewrite C.
+      * cbn [slice filter]. fold (slice (ins_sorted x l) n). fold (slice l n). rewrite IH, E.
+        rewrite (N.eqb_sym (a_node x) n). destruct (N.eqb n (a_node x)); [|reflexivity].
+        cbn [ins_lb]. now rewrite C.
+    + cbn [slice filter]. fold (slice (ins_sorted x l) n). fold (slice l n). rewrite IH.
+      destruct (N.eqb_spec (a_node y) n) as [E2|E2]; [|reflexivity].
+      destruct (N.eqb_spec n (a_node x)); [congruence | reflexivity].
+Qed.
+
+Lemma slice_snoc l x n : slice (l ++ [x]) n = slice l n ++ (if N.eqb (a_node x) n then [x] else []).
+Proof. unfold slice. rewrite filter_app. cbn. now destruct (N.eqb (a_node x) n). Qed.
+
+Lemma slice_filter p l n : slice (filter p l) n = filter p (slice l n).
+Proof.
+  unfold slice. induction l as [|y l IH]; cbn; auto.
+  destruct (p y) eqn:P, (N.eqb (a_node y) n) eqn:E; cbn; rewrite ?P, ?E, IH; auto.
+Qed.
+
+Lemma SortedInv_init : SortedInv (es init).
+Proof. split; [intros a _; constructor | intros seg a []]. Qed.
+
+Lemma SortedInv_add s hint a b t ps stub s' id :
+  SortedInv s -> add_edge s hint a b t ps stub = (s', id) -> SortedInv s'.
+Proof.
+  intros [S1 S2] A. unfold add_edge in A. destruct (alloc _ _ _) as [[i fr] nx]. inversion A; subst; clear A.
+  split; [|cbn; auto]. cbn [bout unsorted]. intros n Hn. unfold buf_add. destruct stub.
+  - assert (n <> a /\ ~ In n (unsorted s)) as [Hne Hn'].
+    { split; intros X; apply Hn; apply set_add_In; auto. }
+    rewrite slice_snoc. cbn. destruct (N.eqb_spec a n); [congruence|]. rewrite app_nil_r. auto.
+  - rewrite slice_ins_sorted. cbn. destruct (N.eqb n a); auto. apply ins_lb_sorted. auto.
+Qed.
+
+Lemma SortedInv_delete s e : SortedInv s -> SortedInv (fst (delete_edge s e)).
+Proof.
+  intros [S1 S2]. unfold delete_edge. destruct (get_edge s e) as [[[[a b] t] p]|]; cbn; [|split; auto].
+  split; [|cbn; auto]. cbn [fst bout unsorted]. intros n Hn. rewrite slice_filter. apply SortedN_filter. auto.
+Qed.
+
+Lemma SortedInv_compact s : SortedInv s -> SortedInv (compact s).
+Proof.
+  intros [S1 S2]. unfold compact.
+  assert (G : forall seg a, In seg (fsegs_out s ++ [sort_nbr (bout s)]) -> SortedN (slice seg a)).
+  { intros seg a H. apply in_app_or in H as [H|[<-|[]]]; auto. apply SortedN_filter, sort_nbr_sorted. }
+  destruct (bout s) eqn:B1; destruct (bin s) eqn:B2; split; cbn; auto; intros; constructor.
+Qed.
+
+Lemma SortedInv_finish s : SortedInv s -> SortedInv (finish_bulk s).
+Proof. intros H. apply SortedInv_compact in H. destruct H. split; cbn; auto. Qed.
+
+Lemma SortedInv_fold l s : SortedInv s -> SortedInv (fold_left delete_edge_ignore l s).
+Proof. revert s. induction l; cbn; intros s H; auto. apply IHl. now apply SortedInv_delete. Qed.
+
+Lemma SortedInv_step s o : SortedInv (es s) -> SortedInv (es (fst (step s o))).
+Proof.
+  intros H. destruct o; cbn [step].
+  - destruct (create_node _ _ _ _ _); cbn; auto.
+  - destruct (create_node _ _ _ _ _); cbn; auto.
+  - destruct (create_node _ _ _ _ _); cbn; auto.
+  - cbn; auto. - cbn; auto. - cbn; auto. - cbn; auto.
+  - unfold delete_node. destruct (nodes (ns s) id); cbn; auto. now apply SortedInv_fold.
+  - unfold create_edge. destruct (live_n (ns s) a); cbn; auto. destruct (live_n (ns s) b); cbn; auto.
+    destruct (add_edge (es s) hint a b t [] false) eqn:A. cbn. eapply SortedInv_add; eauto.
+  - unfold create_edge. destruct (live_n (ns s) a); cbn; auto. destruct (live_n (ns s) b); cbn; auto.
+    destruct (add_edge (es s) hint a b t ps false) eqn:A. cbn. eapply SortedInv_add; eauto.
+  - unfold create_edge. destruct (live_n (ns s) a); cbn; auto. destruct (live_n (ns s) b); cbn; auto.
+    destruct (add_edge (es s) hint a b t [] true) eqn:A. cbn. eapply SortedInv_add; eauto.
+  - cbn. unfold set_eprop. destruct (live_e (es s) e); cbn; auto.
+  - cbn. exact H.
+  - cbn. now apply SortedInv_delete.
+  - cbn. now apply SortedInv_compact.
+  - cbn. now apply SortedInv_finish.
+Qed.
+
+Lemma SortedInv_run ops : SortedInv (es (run ops)).
+Proof.
+  unfold run. assert (G : forall s, SortedInv (es s) -> SortedInv (es (fold_left (fun s o => fst (step s o)) ops s))).
+  { induction ops; cbn; intros s I; auto. apply IHops. now apply SortedInv_step. }
+  apply G, SortedInv_init.
+Qed.
+
+(* search_adjacency_slice on a sorted slice = the specification on that slice *)
+Lemma flat_map_key_filter {B} (f : aent -> list B) key l :
+  flat_map (fun x => if N.eqb (a_nbr x) key then f x else []) l = flat_map f (filter (key_is key) l).
+Proof.
+  induction l as [|x l IH]; cbn; auto. unfold key_is at 1. destruct (N.eqb (a_nbr x) key); cbn; now rewrite IH.
+Qed.
+
+Lemma search_slice_sorted s entries a b ty : SortedN entries ->
+  search_slice s entries a b ty =
+  Some (flat_map (fun x => if N.eqb (a_nbr x) b then match_entry s a b ty x else []) entries).
+Proof. intros H. unfold search_slice. rewrite (search_run_sorted _ _ H). now rewrite flat_map_key_filter. Qed.
+
+Lemma search_slice_fuel s entries a b ty : search_slice s entries a b ty <> None.
+Proof.
+  unfold search_slice. pose proof (search_run_fuel entries b). destruct (search_run entries b); congruence.
+Qed.
+
+Theorem edges_between_as_written s a b ty :
+  SortedInv (es s) -> ~ In a (unsorted (es s)) ->
+  edges_between s a b ty = Some (edges_between_spec s a b ty).
+Proof.
+  intros [S1 S2] Hn. unfold edges_between, edges_between_spec, adj_out, fout.
+  set (G := fun x => if N.eqb (a_nbr x) b then match_entry (es s) a b ty x else []).
+  rewrite flat_map_app. rewrite (search_slice_sorted _ _ _ _ _ (S1 a Hn)). fold G.
+  generalize (flat_map G (slice (bout (es s)) a)) as tail. intros tail.
+  induction (fsegs_out (es s)) as [|seg segs IH]; [cbn; now rewrite app_nil_r|].
+  cbn [map app concat_opt concat]. rewrite (search_slice_sorted _ _ _ _ _ (S2 seg a (or_introl eq_refl))). fold G.
+  rewrite IH by (intros; apply S2; now right). rewrite <- slice_app, flat_map_app. now rewrite app_assoc.
+Qed.
+
+(* never out of fuel, whatever the order of the slices *)
+Theorem edges_between_fuel s a b ty : edges_between s a b ty <> None.
+Proof.
+  unfold edges_between.
+  generalize (search_slice_fuel (es s) (slice (bout (es s)) a) a b ty).
+  destruct (search_slice (es s) (slice (bout (es s)) a) a b ty) as [tl|]; [intros _ | congruence].
+  induction (fsegs_out (es s)) as [|seg segs IH]; cbn; [congruence|].
+  pose proof (search_slice_fuel (es s) (slice seg a) a b ty).
+  destruct (search_slice (es s) (slice seg a) a b ty); [|congruence].
+  destruct (concat_opt _); congruence.
 Qed.
